@@ -1079,6 +1079,8 @@ package anytype
 //@   ensures  size-range: 0 <= size && size <= 4 && size <= len(s) && (len(s) > 0 ==> size >= 1)
 //@   ensures  ascii: len(s) > 0 && r < 128 ==> size == 1 && r == s[0]
 //@   ensures  rune-range: 0 <= r && r <= 1114111
+//@   ensures  multibyte: size > 1 ==> (forall j int :: 0 <= j && j < size ==> s[j] >= 128)
+//@   ensures  invalid: size == 1 && r >= 128 ==> r == 65533
 
 //@ extern unicode.IsSpace pure
 //@   assigns  nothing
@@ -1109,7 +1111,7 @@ package anytype
 //@   assigns  nothing
 //@   panics_iff false
 //@   ensures  exclusive: result1 == nil ==> okArg(result0) && supp(result0) && (isVNil(result0) || isVInt(result0) || isVFloat(result0) || isVBool(result0))
-//@   ensures  error-cites-line: result1 != nil ==> isVErr(result1)
+//@   ensures  error-cites-line: result1 != nil ==> isVErr(result1) && errLine(result1) == line [C20]
 
 //@ template parse-machine(FNAME, REFOF, CLOSECH, ISKIND, CVAR)
 //@ func FNAME [C04 C20]
@@ -1119,12 +1121,12 @@ package anytype
 //@   assigns  cell(line)
 //@   panics_iff false
 //@   ensures  exclusive: (result2 != nil && result0 == nil && result1 == 0) || (result2 == nil && ISKIND(result0) && okVal(result0) && fresh(REFOF(result0)) && plain(REFOF(result0)) && 0 <= result1 && result1 < n && json[result1] == CLOSECH)
-//@   ensures  line-bound: result2 == nil ==> L0 <= deref(line) && deref(line) <= L0 + result1
+//@   ensures  line-bound: result2 == nil ==> L0 <= deref(line) && deref(line) <= L0 + result1 [C20]
 //@   loop 1
 //@     invariant range: 0 <= i && i <= n
 //@     invariant start: (state == 0) == (i == 0)
 //@     invariant built: state != 0 ==> ISKIND(CVAR) && okVal(CVAR) && fresh(REFOF(CVAR)) && plain(REFOF(CVAR))
-//@     invariant line-bound: L0 <= deref(line) && deref(line) <= L0 + i
+//@     invariant line-bound: L0 <= deref(line) && deref(line) <= L0 + i [C20]
 //@     decreases n - i
 //@ end
 //@ instantiate parse-machine(parseList, vlref, ']', isVList, list)
@@ -1150,7 +1152,6 @@ package anytype
 
 //@ template parse-entry(FNAME, REFOF, ISKIND)
 //@ func FNAME [C04 C20]
-//@   requires fits-in-memory: len(json) < MaxInt - 1
 //@   assigns  nothing
 //@   panics_iff false
 //@   ensures  exclusive: (result1 != nil && result0 == nil) || (result1 == nil && ISKIND(result0) && okVal(result0) && fresh(REFOF(result0)))
